@@ -7,7 +7,7 @@ use proptest::prelude::*;
 use serde::{Deserialize, Serialize};
 use sourcemap::SourceMap;
 
-use super::common::rewrite_opts;
+use super::common::{produce, rewrite_opts, small_mm, Producer};
 use crate::engine::{gen_sub, guard, Obs, PropertyDef, Sub, Tier, Verdict};
 use crate::model::*;
 use crate::{ensure, ensure_eq};
@@ -31,6 +31,10 @@ pub struct Case {
     pub with_names: bool,
     pub with_contents: bool,
     pub prefixes: Vec<PrefixChoice>,
+    /// operations applied to the built (regular) map before the rewrite under test: the map being
+    /// rewritten is then itself the result of a rewrite / adjust_mappings / round trip
+    #[serde(default)]
+    pub pre: Vec<Producer>,
 }
 
 fn resolve_prefixes(sources: &[String], choices: &[PrefixChoice]) -> Vec<String> {
@@ -151,6 +155,19 @@ fn check(c: &Case, obs: &mut Obs) -> Verdict {
     let built = match c.map.build() {
         Ok(m) => m,
         Err(e) => return Verdict::Fail(format!("building the model failed: {e}")),
+    };
+    let built = if c.pre.is_empty() {
+        built
+    } else {
+        let mut m = built;
+        for p in &c.pre {
+            m = match produce(m, p) {
+                Ok(m) => m,
+                Err(e) => return Verdict::Fail(format!("preparing the map ({p:?}): {e}")),
+            };
+        }
+        obs.class("rewrite-of-a-map-that-was-itself-produced(rewrite/adjust/round-trip)");
+        m
     };
     let (before_sm, hermes): (SourceMap, Option<sourcemap::SourceMapHermes>) = match &built {
         sourcemap::DecodedMap::Regular(sm) => (sm.clone(), None),
@@ -457,8 +474,24 @@ fn regular(t: Tier) -> BoxedStrategy<Case> {
                     prefixes.push(PrefixChoice::Tilde);
                 }
             }
-            Case { map: MAny::Regular(m), with_names, with_contents, prefixes }
+            Case { map: MAny::Regular(m), with_names, with_contents, prefixes, pre: vec![] }
         })
+        .boxed()
+}
+
+/// The same cases, but the map that gets rewritten went through other operations first.
+fn produced(t: Tier) -> BoxedStrategy<Case> {
+    let default_rewrite = || Producer::Rewrite { names: true, contents: true, prefixes: vec![] };
+    let pre = prop_oneof![
+        2 => small_mm(6).prop_map(move |a| vec![default_rewrite(), Producer::Adjust(Box::new(a))]),
+        1 => Just(vec![default_rewrite()]),
+        1 => small_mm(6).prop_map(|a| vec![Producer::Adjust(Box::new(a))]),
+        1 => Just(vec![Producer::RoundTrip, default_rewrite()]),
+        1 => (any::<bool>(), any::<bool>()).prop_map(|(names, contents)| vec![Producer::Rewrite { names, contents, prefixes: vec![] }]),
+    ];
+    let p = MMParams { max_tokens: 12, edge_values: false, big_lines: false, ..params(t) };
+    (mm_strategy(p), any::<bool>(), any::<bool>(), prefix_choices(), pre)
+        .prop_map(|(m, with_names, with_contents, prefixes, pre)| Case { map: MAny::Regular(m), with_names, with_contents, prefixes, pre })
         .boxed()
 }
 
@@ -477,7 +510,7 @@ fn hermes(t: Tier) -> BoxedStrategy<Case> {
             while fb.len() < map.sources.len() {
                 fb.push(None);
             }
-            Case { map: MAny::Hermes(MHermes { map, fb }), with_names, with_contents, prefixes }
+            Case { map: MAny::Hermes(MHermes { map, fb }), with_names, with_contents, prefixes, pre: vec![] }
         })
         .boxed()
 }
@@ -534,7 +567,7 @@ fn many_sources(_t: Tier) -> BoxedStrategy<Case> {
             } else {
                 MAny::Regular(map)
             };
-            Case { map: any, with_names, with_contents, prefixes }
+            Case { map: any, with_names, with_contents, prefixes, pre: vec![] }
         })
         .boxed()
 }
@@ -550,6 +583,7 @@ fn gcd(a: usize, b: usize) -> usize {
 fn subs() -> Vec<Sub> {
     vec![
         gen_sub("many_sources", many_sources, |t| t.pick(120, 600), check),
+        gen_sub("produced_then_rewritten", produced, |t| t.pick(30_000, 300_000), check),
         gen_sub("regular", regular, |t| t.pick(100_000, 600_000), check),
         gen_sub("hermes", hermes, |t| t.pick(30_000, 200_000), check),
     ]
